@@ -1271,6 +1271,12 @@ func (w *_mapAssembler) AssembleKey() datamodel.NodeAssembler {
 		cfg:        w.cfg,
 		schemaType: w.schemaType.KeyType(),
 		val:        reflect.New(w.valuesVal.Type().Key()).Elem(),
+		finish: func() error { // runs once the key is complete
+			if w.valuesVal.MapIndex(w.curKey.val).IsValid() {
+				return datamodel.ErrRepeatedMapKey{Key: newNode(w.cfg, w.schemaType.KeyType(), w.curKey.val)}
+			}
+			return nil
+		},
 	}
 	return &w.curKey
 }
